@@ -141,7 +141,7 @@ def install(I):
                 kw = dict(star.d, **{k: v for k, v in kw.items() if k != "**"})
             elif isinstance(star, SV) and star.kind.tag == "dict":
                 cur = I.coerce(star, ATTR) if star.kind != ATTR else SV(ATTR, star.tree)
-            elif isinstance(star, dict) and not star:
+            elif (isinstance(star, dict) and not star) or type(star).__name__ == "EmptyLit":
                 pass
             else:
                 raise Unsupported("** of %r" % (star,))
@@ -716,3 +716,87 @@ def install(I):
             ])
         yield SV(SET(ANY), f(adj, C.tree, kt)), st
     I.lib["ball"] = BuiltinVal("ball", _ball)
+
+
+    # ------------------------------------------------------------------ unordered pairs: frozenset((u, v))
+    class UPair:
+        def __init__(self, u, v):
+            self.u, self.v = u, v
+    I.UPair = UPair
+
+    base_frozenset = I.lib["frozenset"].fn
+
+    def _frozenset(I_, st, args, kw):
+        if args and isinstance(args[0], tuple) and len(args[0]) == 2:
+            yield UPair(I.tup_to_sv(args[0][0]), I.tup_to_sv(args[0][1])), st
+            return
+        yield from base_frozenset(I_, st, args, kw)
+    I.lib["frozenset"] = BuiltinVal("frozenset", _frozenset)
+
+    def _comp_set_upair(I_, x, dom, guard, up):
+        """{frozenset((a, b)) for ...}: a set of unordered pairs = a symmetric set of ordered pairs"""
+        a, b = I.as_any(up.u), I.as_any(up.v)
+        res = z3.Const(core.fresh_name("upairs"), z3.ArraySort(keysort(EDGE), core.B))
+        p, q = z3.Const(core.fresh_name("p"), Val), z3.Const(core.fresh_name("q"), Val)
+        wit = z3.Function(core.fresh_name("wit"), Val, Val, x.sort())
+        sub = lambda t: z3.substitute(t, (x, wit(p, q)))
+        I.define([z3.ForAll([x], z3.Implies(z3.And(dom, guard), z3.And(z3.Select(res, to_key(EDGE, (a, b))),
+                                                                     z3.Select(res, to_key(EDGE, (b, a)))))),
+                  z3.ForAll([p, q], z3.Implies(z3.Select(res, to_key(EDGE, (p, q))),
+                                               z3.And(sub(dom), sub(guard),
+                                                      z3.Or(z3.And(sub(a) == p, sub(b) == q), z3.And(sub(a) == q, sub(b) == p)))))])
+        return SV(SET(EDGE), res, None, None, {"unordered": True})
+    I.lib["comp_set:upair"] = BuiltinVal("comp_set:upair", _comp_set_upair)
+
+    def _iter_upairs(I_, st, v):
+        def elem(x, s):
+            u, w = from_key(EDGE, x)
+            return UPair(SV(ANY, u), SV(ANY, w))
+
+        def mark(done, x):
+            u, w = from_key(EDGE, x)
+            return z3.Store(z3.Store(done, x, TRUE), to_key(EDGE, (w, u)), TRUE)
+        spec = IterSpec("set", mem=v.tree, ekind=EDGE, elem=elem)
+        spec.mark = mark
+        return spec
+    I.lib["iter:upairs"] = BuiltinVal("iter:upairs", _iter_upairs)
+
+    base_tuple = I.lib["tuple"].fn
+
+    def _tuple(I_, st, args, kw):
+        if args and isinstance(args[0], UPair):
+            up = args[0]
+            # a frozenset {u, v} with u == v has one element: unpacking it into two names raises ValueError
+            for _, s in I.partial(st, z3.Not(I.py_eq(up.u, up.v)), "ValueError", None):
+                yield (up.u, up.v), s
+            return
+        yield from base_tuple(I_, st, args, kw)
+    I.lib["tuple"] = BuiltinVal("tuple", _tuple)
+
+    @gmeth("remove_edges_from")
+    def _remove_edges_from(I_, st, args, kw):
+        g = args[0]
+        cls = g.kind.extra
+        S = I.to_set_value(st, args[1])
+        if isinstance(S, set):
+            yield None, st
+            return
+        if S.kind != SET(EDGE):
+            raise Unsupported("remove_edges_from(%r)" % (S.kind,))
+        adj, eattr = fld(st, g, "adj"), fld(st, g, "eattr")
+        adj2 = z3.Const(core.fresh_name("adj"), adj.tree.sort())
+        u, v = z3.Const(core.fresh_name("u"), Val), z3.Const(core.fresh_name("v"), Val)
+        e, e2 = to_key(EDGE, (u, v)), to_key(EDGE, (v, u))
+        gone = z3.Select(S.tree, e) if cls == "DiGraph" else z3.Or(z3.Select(S.tree, e), z3.Select(S.tree, e2))
+        I.define([z3.ForAll([u, v], z3.Select(adj2, e) == z3.And(z3.Select(adj.tree, e), z3.Not(gone)))])
+        s1 = I.heap_write(st, cls, "adj", g.tree, SV(adj.kind, adj2))
+        s1 = I.heap_write(s1, cls, "eattr", g.tree, SV(eattr.kind, (adj2, eattr.tree[1])))
+        yield None, s1
+
+    def _deepcopy_obj(I_, st, args, kw):
+        v = args[0]
+        if is_graph(v):
+            yield from copy_graph(st, v)
+            return
+        raise Unsupported("deepcopy of obj:%s" % v.kind.extra)
+    I.lib["deepcopy:obj"] = BuiltinVal("deepcopy:obj", _deepcopy_obj)
